@@ -42,7 +42,7 @@ ASSUMPTIONS = [
     "interleaving inside a task body is not explored (task-level atomicity); a net mutation is a violation under any interleaving",
     "sampled graphs; per graph the crash point enumeration is complete only in the thorough tier for graphs of <=64 tasks",
 ]
-PROBES = ["crash_recomputed_released_key", "readonly_write_attempt_spurious", "crash_point_enumerated_fully",
+PROBES = ["user_aggregation_reused_between_build_and_run", "crash_recomputed_released_key", "readonly_write_attempt_spurious", "crash_point_enumerated_fully",
           "engine_numbagg", "engine_flox", "blockwise_rechunk", "scan", "by_dask"]
 
 
@@ -61,6 +61,21 @@ def gen(tape: Tape, tier: str) -> dict:
             max_blocks=8,
             by_dask_p=0.2,
         )
+    if case["kind"] == "reduce" and tape.chance("gen.custom", 0.15):
+        # a user Aggregation object, reused for a second call between graph construction and execution
+        from ..cases import dec_value, enc_value
+        from ..custom_aggs import CUSTOM
+
+        kw = dec_value(case["kwargs"])
+        kw["func"] = {"custom": tape.choice("gen.customname", CUSTOM)}
+        kw.pop("engine", None)
+        kw.pop("finalize_kwargs", None)
+        if kw.get("method") == "blockwise":
+            kw["method"] = "map-reduce"
+        if "fill_value" in kw and not isinstance(kw["fill_value"], float):
+            kw["fill_value"] = float(kw["fill_value"])
+        case["kwargs"] = enc_value(kw)
+        case["meta"]["custom"] = True
     case["crash_points"] = "all" if tier == "thorough" else 3
     return case
 
@@ -70,8 +85,14 @@ def run(case, tape: Tape, ctx):
     nb = nblocks_reduced(case)
     kw = plain_kwargs(case)
     func = kw["func"]
+    user_agg = None
+    if case["meta"].get("custom"):
+        from ..custom_aggs import make_custom
+
+        user_agg = make_custom(func["custom"] if isinstance(func, dict) else func)
+        func = user_agg.name
     try:
-        colls, assemble, _ = call_chunked(case)
+        colls, assemble, _ = call_chunked(case, func_override=user_agg)
         base = assemble(sim_compute(colls, backend="sync"))
     except REFUSALS as e:
         raise Skip(f"refused:{type(e).__name__}")
@@ -89,7 +110,17 @@ def run(case, tape: Tape, ctx):
     knobs["backend"] = "A"
 
     def one(crash_after=None, full=True):
-        colls, assemble, _ = call_chunked(case)
+        colls, assemble, _ = call_chunked(case, func_override=user_agg)
+        if user_agg is not None:
+            # the user's object is used for ANOTHER call (different fill / dtype) after this graph was
+            # built and before its tasks run: tasks must not see state shared with that later call
+            try:
+                call_chunked(case, func_override=user_agg,
+                             kwargs_override={"fill_value": 12345.0, "expected_groups": np.array([-999.5, 0.5, 1.75]),
+                                              "dtype": "f4", "method": "map-reduce", "reindex": None})
+                ctx.probe("user_aggregation_reused_between_build_and_run")
+            except Exception:  # noqa: BLE001
+                pass
         info = RunInfo()
         try:
             res = assemble(
